@@ -519,6 +519,12 @@ func shouldUseDigitPrefilter(re *syntax.Regexp, nfaSize int, config Config) bool
 	if nfaSize > digitPrefilterMaxNFAStates {
 		return false
 	}
+	// Candidates are verified with an anchored DFA search, which does not give
+	// leftmost-first results when a match hinges on \b, \B or a line anchor
+	// (same reason the small-NFA DFA routing below excludes them).
+	if hasAnchorAssertions(re) {
+		return false
+	}
 	return isDigitLeadPattern(re)
 }
 
